@@ -330,7 +330,10 @@ def finish(ctx, coverage, assumptions, proof=None):
     coverage.setdefault("trusted_base", TRUSTED_BASE)
     write_evidence(ctx.prop, ctx.tier, ctx.seed, ctx.level, coverage, assumptions, wall, len(ctx.violations))
     shutil.rmtree(ctx.work, ignore_errors=True)
-    for kind, desc, path in ctx.violations:
+    # a concrete failing input of the implementation (oracle / side check / corpus replay) is what gets reported;
+    # a broken correspondence or proof obligation is reported on its own only when no such input was found
+    concrete = [v for v in ctx.violations if v[0] not in ("correspondence", "proof")]
+    for kind, desc, path in (concrete or ctx.violations):
         suffix = " no-failing-input-found" if kind in ("correspondence", "proof") else ""
         print("VIOLATION property=%s replay=%s%s" % (ctx.prop, path, suffix))
     if ctx.violations:
